@@ -309,6 +309,26 @@ static Input gen(int id, vh::Rng& r, bool large) {
     for (size_t h = 0; h < hubs; ++h) for (int k = 0; k < 3000; ++k) in.adj[h].push_back({(uint32_t)h, (long long)(1 + r.below(9))});
   }
   if (shape != 5 && shape != 0 && r.coin()) in.adj[n - 1].push_back({(uint32_t)r.below(n), 3});   // last node with an edge
+  if (!large && id % 5 == 4) {
+    // heavy nodes: a handful of nodes, each with 17..60 edges to very few distinct destinations (many parallel edges with
+    // different data) -- beyond the insertion-sort threshold of the per-node edge sorts
+    for (auto& a : in.adj) a.clear();
+    n = 2 + r.below(4);
+    in.adj.assign(n, {});
+    for (size_t s = 0; s < n; ++s) {
+      if (r.coin(1, 4)) continue;
+      size_t deg = 17 + r.below(44), nd = 1 + r.below(3);
+      for (size_t k = 0; k < deg; ++k) in.adj[s].push_back({(uint32_t)((s + r.below(nd)) % n), (long long)(1 + r.below(99))});
+    }
+  }
+  if (large && id % 2 == 1) {
+    // regular: every node has the same small degree (ring, doubled ring, 5- and 8-regular): layouts that pad per node see
+    // the same padding at every node
+    for (auto& a : in.adj) a.clear();
+    static const int degs[] = {1, 2, 5, 8, 3};
+    int deg = degs[r.below(5)];
+    for (size_t s = 0; s < n; ++s) for (int k = 1; k <= deg; ++k) in.adj[s].push_back({(uint32_t)((s + k * (1 + s % 3)) % n), (long long)(1 + r.below(9))});
+  }
   return in;
 }
 
@@ -334,6 +354,17 @@ template <typename ET> static void allLayouts(const Input& in0, unsigned threads
   plainFamily<LC_InlineEdge_Graph<int, ET>, true>(in, "LC_InlineEdge" + sfx, threads, file, true);
   plainFamily<typename LC_InlineEdge_Graph<int, ET>::template with_compressed_node_ptr<true>::type, true>(in, "LC_InlineEdge:compressed" + sfx, threads, file, true);
   plainFamily<LC_Morph_Graph<int, ET>>(in, "LC_Morph" + sfx, threads, file, false);
+  if constexpr (std::is_same<ET, int>::value) {
+    // the graph keeps 64-bit edge data although the file holds 32-bit values (with_file_edge_data), in either option order,
+    // alone and under the in/out wrapper (which rebinds the node type of its inner graph)
+    typedef typename LC_CSR_Graph<int, int64_t>::template with_file_edge_data<int32_t>::type Wide;
+    typedef typename LC_CSR_Graph<char, int64_t>::template with_file_edge_data<int32_t>::type::template with_node_data<int>::type Wide2;
+    plainFamily<Wide>(in, "LC_CSR:file32" + sfx, threads, file, true);
+    plainFamily<Wide2>(in, "LC_CSR:file32:rebound" + sfx, threads, file, true);
+    inoutFamily<LC_InOut_Graph<Wide>>(in, "LC_InOut<LC_CSR:file32>" + sfx, threads, file, tfile);
+    typedef typename LC_Linear_Graph<int, int64_t>::template with_file_edge_data<int32_t>::type WideL;
+    inoutFamily<LC_InOut_Graph<WideL>>(in, "LC_InOut<LC_Linear:file32>" + sfx, threads, file, tfile);
+  }
 }
 
 int main(int argc, char** argv) {
